@@ -358,7 +358,8 @@ def cli2_batch(acc, batch):
     from mc import simsched
     from mc import world as W
 
-    for hs_t, hs_u in batch:
+    for hs_t, hs_u, *rest in batch:
+        edit_in_flight = bool(rest and rest[0])
         wf = W.Workflow([W.T("T", ["src"], ["t"], spec="echo T\n"), W.T("U", ["t"], ["u"], spec="echo U\n"), W.T("V", ["src"], ["v"], spec="echo V\n")])
         hashes = {"V": W.sha1("echo V\n")}
         for n, hs in (("T", hs_t), ("U", hs_u)):
@@ -370,7 +371,7 @@ def cli2_batch(acc, batch):
         stale_t = hs_t != "same"
         stale_u = stale_t or hs_u != "same"
         exp_first = {"T": "shouldrun" if stale_t else "completed", "U": "shouldrun" if stale_u else "completed", "V": "completed"}
-        case = dict(kind="cli2", hs_t=hs_t, hs_u=hs_u)
+        case = dict(kind="cli2", hs_t=hs_t, hs_u=hs_u, edit_in_flight=edit_in_flight)
         problems = []
         with W.Session(w) as s:
             r0 = s.gwf(["status"])
@@ -383,6 +384,17 @@ def cli2_batch(acc, batch):
         exp_subs = sorted(n for n in ("T", "U") if exp_first[n] == "shouldrun")
         if r1.exit_code != 0 or subs != exp_subs:
             problems.append(f"run submitted {subs} (exit {r1.exit_code}), expected {exp_subs}")
+        if edit_in_flight and "T" in subs:
+            # while the jobs are queued the script of T is edited and gwf is run once more: nothing new is submitted (T is in flight), and
+            # what the scheduler runs is still the old script — so when it has finished, T has changed since it was last submitted
+            w1.wf = w1.wf.with_spec("T", "echo T edited while queued\n")
+            with W.Session(w1) as s:
+                r1b = s.gwf(["run"])
+                again = sorted(e["name"] for e in s.sim.journal_submits())
+                w1 = s.snapshot()
+            acc.extra["cli_invocations"] += 1
+            if r1b.exit_code != 0 or again:
+                problems.append(f"a run while the jobs are queued submitted {again} (exit {r1b.exit_code})")
         # every job succeeds, in dependency order, each creating its outputs
         sim = simsched.Sim(w1.sim)
         progress = True
@@ -403,11 +415,13 @@ def cli2_batch(acc, batch):
             r3 = s.gwf(["run"])
             subs3 = sorted(e["name"] for e in s.sim.journal_submits())
         acc.extra["cli_invocations"] += 4
-        if rows2 != {"T": "completed", "U": "completed", "V": "completed"}:
-            problems.append(f"after the jobs succeeded status shows {rows2}")
-        if subs3:
-            problems.append(f"a second run submits {subs3} although nothing changed since the last submission")
-        acc.case(key=("cli2", hs_t, hs_u), outcome=f"cli2 first={len(exp_subs)} ok={not problems}", sample=case)
+        edited = edit_in_flight and "T" in subs
+        exp2 = {"T": "shouldrun", "U": "shouldrun", "V": "completed"} if edited else {"T": "completed", "U": "completed", "V": "completed"}
+        if rows2 != exp2:
+            problems.append(f"after the jobs succeeded status shows {rows2}, expected {exp2}")
+        if subs3 != (["T", "U"] if edited else []):
+            problems.append(f"the next run submits {subs3}, expected {['T', 'U'] if edited else []}")
+        acc.case(key=("cli2", hs_t, hs_u, edit_in_flight), outcome=f"cli2 first={len(exp_subs)} ok={not problems}", sample=case)
         if problems:
             acc.violation(sig=dict(kind="cli2", what=problems[0].split(" ")[0] + " " + problems[0].split(" ")[1]), case=case, observed=problems,
                           msg=f"T -> U with recorded hashes T:{hs_t} U:{hs_u}: {problems}")
@@ -459,7 +473,7 @@ def run(ctx):
     for n, m in nm:
         ctx.pmap(me, "wf_batch", wf_items(n, m), ranks=3 if (n, m) != (2, 4) else 2, hash_modes=(None, "on") if (n, m) == (2, 3) else (None,))
     ctx.pmap(me, "cli_batch", [it for it in cli_items(1, 2) if it[0] == 1 and it[2] in ("list", "str") and it[3] in ("list", "str", "list0")], ranks=3, future=True)
-    ctx.pmap(me, "cli2_batch", [(a, b) for a in ("none", "same", "diff") for b in ("none", "same", "diff")], chunk=1)
+    ctx.pmap(me, "cli2_batch", [(a, b, e) for a in ("none", "same", "diff") for b in ("none", "same", "diff") for e in (False, True)], chunk=1)
     ctx.pmap(me, "cli_batch", cli_items(1, 2 if quick else 2), ranks=2 if quick else 3)
     ctx.bound = dict(single_K=K, ranks=3, workflows=nm, cli="k_in<=1,k_out<=2,ranks=%d" % (2 if quick else 3))
     ctx.assumptions = [
@@ -479,7 +493,7 @@ def replay(case):
     elif kind == "wf":
         _replay_wf(acc, c)
     elif kind == "cli2":
-        cli2_batch(acc, [(c["hs_t"], c["hs_u"])])
+        cli2_batch(acc, [(c["hs_t"], c["hs_u"], c.get("edit_in_flight", False))])
     elif kind == "cli":
         exp = ref_single(c["ki"], c["ko"], tuple(c["in_m"]), tuple(c["out_m"]), c["hs"])
         obs = eval_cli(c["ki"], c["ko"], c["si"], c["so"], tuple(c["in_m"]), tuple(c["out_m"]), c["hs"], rank_offset=FUTURE if c.get("future") else 0)
